@@ -525,6 +525,13 @@ def _stale_reads(p, f, cls, fitted, seen, depth):
         own_stores.setdefault(a, []).append(st)
     write_bases = set()
     for n in walk_own(f.node):
+        if isinstance(n, ast.AugAssign):
+            # an augmented store reads what it overwrites: previously fitted state used as a value
+            for x in ast.walk(n.target):
+                if isinstance(x, ast.Attribute) and isinstance(x.value, ast.Name) and x.value.id == "self" and x.attr in fitted:
+                    out.append((f, n, x.attr))
+                    for y in ast.walk(n.target):
+                        write_bases.add(id(y))
         if isinstance(n, (ast.Assign, ast.AugAssign)):
             ts = n.targets if isinstance(n, ast.Assign) else [n.target]
             for t in ts:
@@ -584,6 +591,8 @@ WITNESSES = [
             "new_scale = self.target.norm() / self.source.norm()", "new_scale = self.source.norm() / self.target.norm()", rule="C08.R2", construct="AlignmentUniformScale"),
     Witness("C08.W9", "menpo/transform/piecewiseaffine/base.py", "AbstractPWA._rebuild_target_vectors",
             "t = self.target.points[self.trilist]", "t = self.target.points[self.trilist]\n    self.source.points[0] = t[0, 0]", rule="C08.R4", construct="PWA"),
+    Witness("C08.W10", "menpo/transform/homogeneous/translation.py", "AlignmentTranslation._sync_state_from_target",
+            "self.h_matrix[:-1, -1] = translation", "self.h_matrix[:-1, -1] += translation", rule="C08.R6", construct="AlignmentTranslation", note="seeded change C08-B"),
     Witness("C08.T1", "menpo/transform/homogeneous/rotation.py", "AlignmentRotation._sync_state_from_target",
             "optimal_rotation_matrix(self.source, self.target, allow_mirror=self.allow_mirror)", "optimal_rotation_matrix(self._source, self._target, allow_mirror=self.allow_mirror)", kind="T"),
 ]
